@@ -133,6 +133,9 @@ func (d *connDriver) send(wire ...[]byte) (pkts []model.Packet, rest []byte, clo
 
 func (d *connDriver) collect() (pkts []model.Packet, rest []byte, closed bool, err error) {
 	if !d.c.AwaitQuiescentOrClosed(watchdog) {
+		if err := deadlockVerdict(fmt.Sprintf("connection %d neither went back to reading nor was closed", d.c.ID)); err != nil {
+			return nil, nil, false, err
+		}
 		return nil, nil, false, fmt.Errorf("HARNESS-BUG/INCONCLUSIVE: connection %d neither went quiescent nor closed", d.c.ID)
 	}
 	all, _ := d.c.Written()
